@@ -44,6 +44,31 @@ def gen_pair(rng):
     until = rng.choice([None, None, gen.U64MAX, e['t'], e['t'], max(e['t'], 1) - 1, min(e['t'] + 1, gen.U64MAX), 6])
     f = dict(ids=sub(ids, e['id']), authors=sub(gen.AUTHORS, e['pk']), kinds=sub([0, 1, 5, 7, 30000, 65535], e['kind']),
              tags=ftags, since=since, until=until, limit=rng.choice([None, 0, 5]))
+    if rng.random() < 0.25:
+        # near misses of the packed lists: an event value made of the tail of one list element and the head of the next
+        # (never a member itself), values equal to a member in all but one byte, the list in both orders
+        which = rng.choice(['kinds', 'kinds', 'ids', 'authors'])
+        if which == 'kinds':
+            a, b = rng.choice([(1, 256), (1, 2), (0, 1), (7, 30000), (65535, 0), (257, 1), (5, 1280), (30023, 10002)])
+            ks = [a, b] + ([rng.choice([3, 9])] if rng.random() < 0.3 else [])
+            rng.shuffle(ks)
+            pk_ = b''.join(k.to_bytes(2, 'little') for k in ks)
+            cand = [int.from_bytes(pk_[i:i + 2], 'little') for i in range(1, len(pk_) - 1)] + [ks[0] ^ 256, ks[0] ^ 1]
+            cand = [k for k in cand if k not in ks] or [4]
+            f['kinds'] = ks
+            e['kind'] = rng.choice(cand + [ks[0]])
+        else:
+            x, y = rng.sample([gen.ID(1), gen.ID(2), gen.ID(3), bytes(range(32)), bytes(range(32, 64)), gen.AUTHORS[0], gen.AUTHORS[1]], 2)
+            k = rng.randrange(1, 32)
+            cand = [x[k:] + y[:k], y[k:] + x[:k], x[:31] + bytes([x[31] ^ 1]), bytes([x[0] ^ 0x20]) + x[1:]]
+            cand = [v for v in cand if v not in (x, y)] or [gen.ID(9)]
+            v = rng.choice(cand + [x])
+            if which == 'ids':
+                f['ids'] = [x, y]
+                e['id'] = v
+            else:
+                f['authors'] = [x, y]
+                e['pk'] = v
     return f, e
 
 
